@@ -32,10 +32,9 @@ THEOREMS = [
     "Typedpy.C18.dHead_starts",
     "Typedpy.C18.isFlat_not_classRef",
     "Typedpy.C18.p1SiteD_names_own_field",
-    "Typedpy.C18.p1SiteD_nested_iff",
+    "Typedpy.C18.p1SiteD_never_nested",
     "Typedpy.C18.p1SiteD_isSome",
     "Typedpy.C18.p1SitesD_name_fields",
-    "Typedpy.C18.p1SitesD_all_named",
     "Typedpy.C18.scalar_is_path",
     "Typedpy.C18.all_scalar_is_path",
     "Typedpy.C18.flat_is_path",
